@@ -9,6 +9,7 @@ import ShexerModel.Model.Nt
 import ShexerModel.Model.Ttl
 import ShexerModel.Model.History
 import ShexerModel.Model.Tsv
+import ShexerModel.Model.Endpoint
 import ShexerModel.Spec.Counts
 import ShexerModel.Spec.ShExSem
 open Shexer
@@ -147,6 +148,17 @@ def runCase (st : DState) (what id : String) : List String :=
         | .ok (some t) => "OK\t" ++ term t.s ++ "\t" ++ t.p ++ "\t" ++ term t.o
         | .ok none => "DROPPED"
         | .error _ => "EXC"
+    | "endpoint" =>
+      -- `NT` lines: the target nodes; answer: the requests of the neighbourhood fetch and the queries a cached double pass sends
+      let targets := st.rawLines.toList
+      let reqs := Endpoint.directRequests g targets ++ (if st.cfg.inverse then Endpoint.inverseRequests g targets else [])
+      let show_ : Endpoint.Req → String
+        | .po s => "REQ\tpo\t" ++ s
+        | .sp o => "REQ\tsp\t" ++ o
+        | .classes s => "REQ\tclasses\t" ++ s
+      let noClasses := reqs.filter fun r => match r with | .classes _ => false | _ => true
+      reqs.map show_ ++ ["QUERIES\t" ++ toString (Endpoint.runCached st.cfg.instProp g {} (reqs ++ reqs)).1.queries,
+                         "QUERIESPOSP\t" ++ toString (Endpoint.runCached st.cfg.instProp g {} (noClasses ++ noClasses)).1.queries]
     | "tsvlines" =>
       st.rawLines.toList.map fun l =>
         let term : Term → String
